@@ -179,7 +179,8 @@ def rollup(ctx, o, ps: PassShape):
                 continue
             extra = [(t, p) for t, p in reg['other']]
             # fallback for childless-values: allowed only under an emptiness test of the collected list
-            if extra and all((match("len($v) == 0", t) and p) for t, p in extra):
+            emp = [sched.is_emptiness(t, p) for t, p in extra]
+            if extra and all(e is not None and e[1] for e in emp):
                 o.site(ps.f, st, f"summary {attr}: fallback when no child has a {attr}")
                 continue
             v = val
